@@ -262,6 +262,16 @@ def gen_cases(ctx, p, count):
         # relative perturbation of the start vector of the direct ?gsrfs call: from rounding level to 10%
         mag = 10.0 ** rng.uniform(-3 if single else -9, -1)
         c["xpert"] = [mag * rng.uniform(-1, 1) for _ in range(n * nrhs)]
+        if nrhs >= 2 and rng.random() < 0.4:
+            # a right-hand side that is zero (or tiny) BEFORE one that needs refinement: the per-column state of the
+            # refinement loop (count, lstres) must not leak from one column into the next
+            nv = 2 if ll.is_cx(p) else 1
+            j0 = rng.randrange(nrhs - 1)
+            sc = rng.choice([0.0, 0.0, 1e-30 if not single else 1e-20])
+            for i in range(n * nv):
+                v = c["b"][(j0 * n) * nv + i] * sc
+                c["b"][(j0 * n) * nv + i] = ll.to_single(v) if single else v
+            c["kind"] = kind + "+zerocol"
         if k % 3 == 0:
             # direct call with a matrix that differs from the factored one by up to 5..45 % per entry:
             # linear convergence, 2..ITMAX correction steps, the halving test and the iteration cap are exercised
